@@ -26,8 +26,11 @@ add("C01", "other",
     "model emits in ANY context (operand selector, Discard/ForbidTemp/AcceptTemp/OpDepth/... flags; both temp-register "
     "strategies, the x-op-x shortcut, unary minus as -1*x) run by the VM model from any state leaves exactly Sem's value where "
     "the operand says, keeps the stack below, and raises the same error class; through ByteCode/load/Run and run_tree the "
-    "result equals Sem's, the stack pointer, globals and output are as before. Not proved: the simulation for statements with "
-    "effects, locals/closures, arrays, calls, control flow (full statement: C01_compile_correct_statement). The property is "
+    "result equals Sem's, the stack pointer, globals and output are as before. Over histories (ExprAssign/ExprSession.v): in "
+    "every session of expression statements and assignments g = e of pure expressions to globals (g = g + 1 is the INC "
+    "instruction), failing statements included, each statement gives Sem's value or error class, binds Sem's globals, writes "
+    "nothing and leaves the machine ready for the next (C01_simple_sessions_partial). Not proved: the simulation for calls, "
+    "control flow, generators, locals/closures, arrays, output, g = 1 + g (full statement: C01_compile_correct_statement). The property is "
     "decided each run by differential testing: generated sessions are run on the real code and compared, inside Coq, with Sem "
     "(property oracle) and with the compiler/VM model (correspondence; bytecode-level agreement of the compiler model was "
     "established on thousands of statements).", COMMON_NOTE, DIFF)
@@ -73,7 +76,11 @@ add("C08", "other",
     "Partial. Proved in Coq (PropC08.v): the VM model's error path leaves the main machine clean (sp, frames, closures, child "
     "contexts, ip) and keeps the globals; a run that ends in an error hands back exactly the reset of the state in which the "
     "failing step ended, and code, data segment and debug table are untouched by any run (StepCode.v, over every opcode). "
-    "Not proved: that code compiled at shifted offsets behaves the same "
+    "For sessions of simple statements (pure expressions and assignments of pure expressions to globals; ExprSession.v) the "
+    "property is proved on the compiler and VM models: a failing statement changes neither globals nor output and leaves the "
+    "machine ready (C08_simple_failure_is_invisible); two machines with the same globals give the same result wherever the "
+    "statement's code and data land (C08_simple_relocation); every later statement of every such history gives what the "
+    "semantics gives (C08_simple_sessions). Not proved in general: that code compiled at shifted offsets behaves the same "
     "(C08_twin_sessions_statement). Decided each run by twin sessions on the real code: histories with parse errors and "
     "runtime errors of every class at depth 0-30, in loops, in suspended generators 1-3 levels deep, several in a row, "
     "against the same history without the failures; every later statement must agree. The failing histories are also "
